@@ -288,9 +288,14 @@ class Scenario:
 def explore(repo, body, typed=True, max_paths=4096, intercept=None):
     """run body(scenario) for every combination of outcomes of undecidable tests.
     returns list of (choices, scenario, result, raised)"""
+    import os
+    import time
     out, stack = [], [[]]
+    t0, budget = time.time(), float(os.environ.get('TTSA_SCENARIO_BUDGET', '60'))
     while stack:
         ch = stack.pop()
+        if time.time() - t0 > budget:
+            raise AnalysisError(f'one scenario needs more than {budget:.0f} s ({len(out)} paths explored, {len(stack) + 1} pending): too many data-dependent tests on its paths')
         sc = Scenario(repo, typed=typed, choices=ch, intercept=intercept)
         try:
             res = body(sc)
